@@ -25,7 +25,7 @@ THRESHOLDS = [0.0, 0.125, 0.25, 0.5, 1.0, 2.0]
 EXACT_FACTORS = [0.5, 0.1, 0.2]
 GENERAL_FACTORS = [0.3, 0.7, 0.9, 0.25, 0.333, 0.05, 0.61]
 SHAPES = ["random", "monotone_down", "monotone_up", "slippery", "plateau", "exact_threshold", "sawtooth", "touch_zero"]
-STR_ALPHABET = ["a", "B", "z", " ", ",", '"', "'", ";", "0", "-", "x,y", '""', "#"]
+STR_ALPHABET = ["a", "B", "z", " ", ",", '"', "'", ";", "0", "-", "x,y", '""', "#", "\n", "p\nq"]
 
 
 def grid(rng, lo=0.0, hi=99.875):
